@@ -56,6 +56,52 @@ def mutates_outer_state(fd) -> bool:
     return False
 
 
+def outer_mutations(fd):
+    """(names of enclosing-scope variables a function body stores into / mutates in place, names of its own parameters it
+    mutates in place - "*" marks what is not modelled: a mutated parameter that is also re-bound, nonlocal / global).  A closure that only touches enclosing variables can be evaluated with the enclosing environment
+    shared; one that mutates its arguments cannot (argument aliasing is not modelled)."""
+    if isinstance(fd, ast.Lambda):
+        return set(), False
+    params = {a.arg for a in fd.args.args + fd.args.kwonlyargs}
+    local = set()
+    for st in ast.walk(fd):
+        if isinstance(st, (ast.Assign, ast.AugAssign, ast.AnnAssign, ast.For)):
+            tg = st.targets if isinstance(st, ast.Assign) else [st.target]
+            for t in tg:
+                for x in (t.elts if isinstance(t, (ast.Tuple, ast.List)) else [t]):
+                    if isinstance(x, ast.Name) and isinstance(x.ctx, ast.Store):
+                        local.add(x.id)
+    outer, par = set(), set()
+    for st in ast.walk(fd):
+        tg = []
+        if isinstance(st, ast.Assign):
+            tg = st.targets
+        elif isinstance(st, ast.AugAssign):
+            tg = [st.target]
+        for t in tg:
+            base = t
+            while isinstance(base, (ast.Subscript, ast.Attribute)):
+                base = base.value
+            if base is not t and isinstance(base, ast.Name) and base.id != "self":
+                if base.id in params:
+                    par.add(base.id if base.id not in local else "*")
+                elif base.id not in local:
+                    outer.add(base.id)
+        if isinstance(st, ast.Expr) and isinstance(st.value, ast.Call) and isinstance(st.value.func, ast.Attribute):
+            m = st.value.func.attr
+            base = st.value.func.value
+            while isinstance(base, (ast.Subscript, ast.Attribute)):
+                base = base.value
+            if isinstance(base, ast.Name) and base.id != "self" and (m.endswith("_") or m in ("append", "extend", "insert", "pop", "remove", "add", "update", "clear", "sort", "reverse")):
+                if base.id in params:
+                    par.add(base.id if base.id not in local else "*")
+                elif base.id not in local:
+                    outer.add(base.id)
+        if isinstance(st, (ast.Nonlocal, ast.Global)):
+            par.add("*")  # rebinding of enclosing names: not modelled
+    return outer, par
+
+
 class BuiltinRef:
     """A builtin handed around as a value (`label_of = int`)."""
 
@@ -872,12 +918,49 @@ class Folder:
             return out_
         if isinstance(node, ast.Call) and isinstance(node.func, ast.Name) and isinstance(self.names.get(node.func.id), (ast.FunctionDef, ast.Lambda)) and not node.keywords:
             fd_ = self.names[node.func.id]
+            shared_outer_ = set()
+            back_ = {}
             if mutates_outer_state(fd_):
-                raise Unfoldable(f"local function {node.func.id} modifies its arguments / enclosing variables (aliasing is not modelled)")
+                shared_outer_, par_ = outer_mutations(fd_)
+                plist_ = [a.arg for a in fd_.args.args]
+                for pm_ in par_:
+                    # a parameter mutated in place: the caller's variable handed over by plain name receives the result
+                    if pm_ == "*" or pm_ not in plist_ or plist_.index(pm_) >= len(node.args) or not isinstance(node.args[plist_.index(pm_)], ast.Name) or node.args[plist_.index(pm_)].id not in self.names:
+                        raise Unfoldable(f"local function {node.func.id} modifies an argument that is not a plain variable (aliasing is not modelled)")
+                    back_[pm_] = node.args[plist_.index(pm_)].id
+                    if back_[pm_] != pm_ and any(isinstance(x_, ast.Name) and x_.id == back_[pm_] for x_ in ast.walk(fd_)):
+                        raise Unfoldable(f"local function {node.func.id} sees one object under two names (aliasing is not modelled)")
+                if len(set(back_.values())) != len(back_) or set(back_.values()) & shared_outer_:
+                    raise Unfoldable(f"local function {node.func.id}: one variable reaches it twice (aliasing is not modelled)")
+                if isinstance(fd_, ast.Lambda) or any(n_ not in self.names for n_ in shared_outer_) or not (shared_outer_ or back_):
+                    raise Unfoldable(f"local function {node.func.id} modifies its arguments (aliasing is not modelled)")
             argv = [self.fold(a) for a in node.args]
             params_ = [a.arg for a in fd_.args.args]
             if len(argv) != len(params_):
                 raise Unfoldable("local function arity")
+            if shared_outer_ or back_:
+                # a closure over enclosing variables it mutates in place (a scratch buffer, a result list): its body runs in an
+                # environment of its own, and the mutated enclosing variables are handed back when it finishes
+                if any(p_ in shared_outer_ for p_ in params_):
+                    raise Unfoldable("parameter shadows a mutated enclosing variable")
+                from .frag import FragReturn, run_fragment
+
+                sub_env_ = dict(self.names)
+                sub_env_.update(zip(params_, argv))
+                val_ = None
+                try:
+                    run_fragment(fd_.body, sub_env_, self.attrs, funcs=self.funcs, materialise=self.materialise, ctors=self.ctors, attrs_live=True, share_env=True)
+                except FragReturn as r_:
+                    val_ = r_.value
+                for n_ in shared_outer_:
+                    if n_ not in sub_env_:
+                        raise Unfoldable(f"enclosing variable {n_} lost its value inside {node.func.id}")
+                    self.names[n_] = sub_env_[n_]
+                for pm_, an_ in back_.items():
+                    if pm_ not in sub_env_:
+                        raise Unfoldable(f"argument {pm_} lost its value inside {node.func.id}")
+                    self.names[an_] = sub_env_[pm_]
+                return val_
             if isinstance(fd_, ast.Lambda):
                 sub = Folder(dict(self.names, **dict(zip(params_, argv))), self.attrs)
                 sub.funcs, sub.materialise, sub.ctors = self.funcs, self.materialise, self.ctors
